@@ -127,6 +127,9 @@ func newSigner(algo, hc, bc string, domains []string) (*dkim.Modifier, map[strin
 		{Name: "header_canon", Args: []string{hc}},
 		{Name: "body_canon", Args: []string{bc}},
 	}
+	if signSubdomains {
+		cfg = append(cfg, config.Node{Name: "sign_subdomains", Args: []string{"yes"}})
+	}
 	if err := m.Init(config.NewMap(nil, config.Node{Children: cfg})); err != nil {
 		return nil, nil, err
 	}
@@ -140,6 +143,11 @@ func newSigner(algo, hc, bc string, domains []string) (*dkim.Modifier, map[strin
 	}
 	return m, recs, nil
 }
+
+// signSubdomains: the signer of the current run is configured with
+// `sign_subdomains yes` (one domain; senders in its subdomains are signed
+// with d= the configured domain and its key)
+var signSubdomains bool
 
 type emsg struct {
 	id     string
@@ -185,6 +193,16 @@ func Run(s *simrt.Sim, a *harness.Args, r *harness.Result) {
 	s.PreemptNum, s.PreemptDen = 1, 3
 
 	domains := []string{"origin.example", "почта.example"}
+	signSubdomains = s.T.Choose(st, 5) == 0
+	subSenders := []string{"sender@origin.example", "sender@sub.origin.example", "sender@deep.sub.origin.example"}
+	if signSubdomains {
+		domains = domains[:1]
+		if s.T.Choose(st, 3) == 0 {
+			domains = []string{"почта.example"}
+			subSenders = []string{"отправитель@почта.example", "отправитель@под.почта.example", "s@xn--d1atc.xn--80a1acny.example"}
+		}
+		s.Stat("dkim_sign_subdomains")
+	}
 	var signer *dkim.Modifier
 	var recs map[string]string
 	var berr error
@@ -265,6 +283,14 @@ func Run(s *simrt.Sim, a *harness.Args, r *harness.Result) {
 			m.from = senders[s.T.Choose(st, len(senders))]
 		} else if s.T.Choose(st, 3) == 0 {
 			m.from = senders[2]
+		}
+		if signSubdomains {
+			m.from = subSenders[s.T.Choose(st, len(subSenders))]
+			if domains[0] != "origin.example" {
+				// (U-label local parts and domains need SMTPUTF8; the A-label
+				// spelling with an ASCII local part does not)
+				m.utf8 = m.utf8 || m.from != subSenders[2]
+			}
 		}
 		m.hdrRaw = genHeader(s.T)
 		m.hdrRaw = append([]byte("X-Sim-Msg: "+m.id+"\r\n"), m.hdrRaw...)
